@@ -176,10 +176,28 @@ func c16Join(c *Ctx, i int, local map[string]int64) {
 		pool = 12
 		local["join.long-queries"]++
 	}
+	kindOf := func(j int) int { return -1 }
+	if i%40 == 9 {
+		// statements that carry lists (key lists, destinations): what one
+		// statement's list holds must not depend on the next statement's
+		lk := []int{gen.KindIndex("ShowTagKeys"), gen.KindIndex("ShowTagValues"), gen.KindIndex("CreateSubscription"), gen.KindIndex("ShowTagKeys")}
+		kindOf = func(j int) int { return lk[j%len(lk)] }
+		n = rg.Range(3, 6)
+		local["join.list-statements"]++
+	}
+	if i%200 == 11 {
+		// thousands of small statements full of argument-less calls
+		n = []int{1200, 3000}[rg.Intn(2)]
+		pool = 3
+		local["join.very-long-queries"]++
+	}
 	var texts []string
 	var dumps []string
 	for j := 0; j < n; j++ {
-		gc := genCase(c.Seed, "c16.join.part", i*8+j%pool, -1, -1, gen.Opts{MaxDepth: 2}, "random")
+		gc := genCase(c.Seed, "c16.join.part", i*8+j%pool, kindOf(j), -1, gen.Opts{MaxDepth: 2}, "random")
+		if n >= 1200 {
+			gc.Text = []string{"SELECT v FROM m WHERE time > now() - 1h AND time < now()", "SELECT mean(v), now() FROM m WHERE time < now() GROUP BY time(1m)", "SHOW TAG KEYS WITH KEY IN (a, b)"}[j%3]
+		}
 		st, err, pan, _, _ := parseQuery1(gc.Text)
 		if pan || err != nil {
 			local["join.part-not-accepted(skipped)"]++
